@@ -387,10 +387,10 @@ impl HttpServer {
                         self.socket
                             .accept()
                             .map_err(ServerError::IOError)
-                            .and_then(move |(mut stream, _)| {
-                                stream
-                                    .write(SERVER_FULL_ERROR_MESSAGE)
-                                    .map_err(ServerError::IOError)
+                            .map(move |(mut stream, _)| {
+                                // The client may be gone already, in which case the write
+                                // fails. That is no reason to fail for everybody else.
+                                let _ = stream.write(SERVER_FULL_ERROR_MESSAGE);
                             })?;
                     }
                     // An internal error will compromise any in-flight requests.
